@@ -611,12 +611,17 @@ pub fn check(sc: &Scenario, ex: &Exec, a: &Analysis) -> Vec<Violation> {
             }
         }
     };
+    // a response that legitimately announced close (e.g. its request body was left unread) ends
+    // the connection before later messages are looked at: nothing is owed for them
+    let finals_all = a.finals();
+    let closed_before = |k: usize| finals_all.iter().take(k).any(|r| r.says_close() || (r.version == 0 && !r.says_keep_alive()));
+    let expect_dispatched = (0..expect_dispatched).take_while(|&k| !closed_before(k)).count();
     if ex.done.is_some() && a.dispatched.len() < expect_dispatched && !oversized {
         v.push(viol(P, "a", "request-not-delivered", format!("the stream holds {expect_dispatched} requests before any rejection point but the application saw {}", a.dispatched.len())));
     }
     // (c) malformed message: answered with a 4xx and the connection closed
     let finals = a.finals();
-    if let Some(fb) = first_bad {
+    if let Some(fb) = first_bad.filter(|&fb| !closed_before(fb)) {
         let class = class_of(st, fb);
         if ex.done.is_some() || ex.io.shutdown_done {
             // the response that answers message fb
